@@ -158,6 +158,11 @@ def run(seed, tier, replay=None):
                                      allowance=al, note="model and implementation differ by more than the jitter allowance, "
                                      "but the implementation still meets the property's tolerance at this input")
 
+        # ---------------- the same kind of query in another container (float32 where exactly representable, integers as int64 /
+        # Python ints): the property is about the real number; the dtype of the query must not lower the precision of the answer
+        if ci % 4 == 0:
+            container_checks(rep, d, k, inp, tol)
+
         # ---------------- Spec: the property itself on the real code
         if a == b:
             spec_point_mass(rep, d, a, c, ys, qs, cdf, pdf, ppf, mean, var, inp)
@@ -173,6 +178,43 @@ def run(seed, tier, replay=None):
         extra=dict(driver_lines=drv.lines, extra=dict(calibration=calib),
                    oracle="mpmath (40 digits) on the exact rational values of the inputs; scipy.stats.beta; "
                           "Gauss-Kronrod quadrature of the implementation's pdf in the variable s, y = a+(b-a)s^2"))
+
+
+def container_checks(rep, d, k, inp, tol):
+    import math
+    a, b, c, convex = k["a"], k["b"], k["c"], k["convex"]
+    f32 = lambda v: float(np.float32(v))  # noqa: E731
+    with np.errstate(all="ignore"):
+        ys32 = [f32(y) for y in k["ys"] if np.isfinite(y) and np.isfinite(np.float32(y))][:8]
+        qs32 = [f32(q) for q in k["qs"] if 0.0 <= f32(q) <= 1.0][:8]
+    ysi = sorted({float(math.floor(a)), float(math.ceil(b)), float(round((a + b) / 2))}) if abs(a) + abs(b) < 1e15 else []
+    for label, ys_, qs_, mk in (("float32", ys32, qs32, lambda v: np.array(v, dtype=np.float32)),
+                                ("int64", ysi, [0.0, 1.0], lambda v: np.array([int(x) for x in v], dtype=np.int64)),
+                                ("pyint_list", ysi, [0.0, 1.0], lambda v: [int(x) for x in v])):
+        rep.count("query_container=" + label)
+        for kind, xs, fn in (("cdf", ys_, d.cdf), ("pdf", ys_, d.pdf), ("ppf", qs_, d.ppf)):
+            if not xs:
+                continue
+            key = "y" if kind != "ppf" else "q"
+            with warnings.catch_warnings():
+                warnings.simplefilter("ignore")
+                try:
+                    out = np.asarray(fn(mk(xs)), dtype=float)
+                except Exception as e:  # noqa: BLE001
+                    rep.violate(what=f"{kind} raised for a query given as {label} (the same numbers as float64 are accepted)", error=repr(e),
+                                input=dict(inp, xs=hx(xs), query_container=label), call=f"QuadraticDistribution.{kind}")
+                    continue
+            if out.shape != (len(xs),):
+                rep.violate(what=f"{kind}: query given as {label} of shape ({len(xs)},) gave shape {out.shape}",
+                            input=dict(inp, xs=hx(xs), query_container=label), call=f"QuadraticDistribution.{kind}")
+                continue
+            for x, iv in zip(xs, out):
+                rep.case(("container", label, kind, inp["a"], inp["b"], c, convex, C.fhex(x)), nontrivial=a < b)
+                msg = spec_verdict(kind, a, b, c, convex, x, float(iv), tol)
+                if msg is not None:
+                    rep.violate(what=f"{msg} [query given as {label}]", input=dict(inp, **{key: C.fhex(x)}, query_container=label),
+                                observed=float(iv), call=f"QuadraticDistribution.{kind}")
+                    break
 
 
 def spec_verdict(kind, a, b, c, convex, x, iv, tol):
